@@ -89,6 +89,7 @@ func loadEngine(repo string, specFiles []string) (*Engine, error) {
 	}
 	sort.Strings(files)
 	files = append(files, specFiles...)
+	contractsRepoDir = strings.TrimSuffix(repo, "/")
 	cs, err := loadContracts(files)
 	if err != nil {
 		return nil, err
